@@ -1050,11 +1050,12 @@ impl TryFrom<&mut Peekable<Lexer>> for ParserNode {
                             // not found
                             let mut values = Vec::new();
                             loop {
-                                // The list also ends with the file. Treating that
-                                // as an error would drop the whole directive.
-                                let next = match lex.peek_any() {
-                                    Err(LexError::UnexpectedEOF) => break,
-                                    other => other?,
+                                // The list also ends with the file, and with a token
+                                // the lexer cannot read: that token belongs to the
+                                // next statement, which reports it. Treating either
+                                // as an error here would drop the whole directive.
+                                let Ok(next) = lex.peek_any() else {
+                                    break;
                                 };
                                 if let TokenType::Newline = next.token_type() {
                                     // consume newline
